@@ -742,21 +742,24 @@ def replay(ctx, rec):
 
 
 def classify(f):
+    """known-finding class of a failing input: only REFUSALS of well-formed programs whose sole obstacle is the named construct"""
+    import re
     inp = f.get("input", {})
     text = inp.get("text", "")
-    what = f.get("what", "")
-    if "is refused" in what and _only_empty_body_refusal(text):
-        return "empty-gate-body-refused"
+    if "is refused" not in f.get("what", "") or not text:
+        return None
+    empty_body = r"(gate [^{]*\{)(\s*((barrier [^;]*;)\s*)*)\}"
+    if re.search(empty_body, text):
+        fixed = re.sub(empty_body, lambda m: m.group(1) + m.group(2) + " id " + _first_formal(m.group(1)) + "; }", text)
+        if oracle(fixed, True) is None:
+            return "empty-gate-body-refused"
+    if re.search(r"[A-Za-z_]\w*\s*\(\s*\)", text):
+        if oracle(re.sub(r"([A-Za-z_]\w*)\s*\(\s*\)", r"\1", text), True) is None:
+            return "empty-parameter-parens-refused"
+    if re.search(r"(?m)^\s*if\s*\([^)]*\)\s*measure\b", text):
+        if oracle(re.sub(r"(?m)^(\s*)if\s*\([^)]*\)\s*(measure\b)", r"\1\2", text), True) is None:
+            return "if-measure-refused"
     return None
-
-
-def _only_empty_body_refusal(text):
-    """the program defines a gate whose body applies no gate, and is imported faithfully once those bodies get one"""
-    import re
-    if not re.search(r"gate [^{]*\{\s*((barrier [^;]*;)\s*)*\}", text):
-        return False
-    fixed = re.sub(r"(gate [^{]*\{)(\s*((barrier [^;]*;)\s*)*)\}", lambda m: m.group(1) + m.group(2) + " id " + _first_formal(m.group(1)) + "; }", text)
-    return oracle(fixed, True) is None
 
 
 def _first_formal(head):
